@@ -325,4 +325,9 @@ seq(prop="C17", lean_targets=["TransportVerif.Props.C17"], pkg="netctx", run="^T
                        "the scripted wrapped connection harness/shim/ctxh (deadline-aware blocking call, byte stream with position-dependent content)", "vrewrite, cosched"],
     assumptions=["SetReadDeadline/SetWriteDeadline of the wrapped connection do not fail", "operations of one direction are consecutive (the wrapper's mutex); Close is not interleaved"])
 
+seq(prop="C01", lean_targets=["TransportVerif.Props.C01"], pkg="vnet", run="^TestVerifE2E$", component="vnet",
+    files=["e2e_h_test.go", "nat_h_test.go"], quick_n=600, thorough_n=30000, search_n=2000,
+    nontrivial=["read-translated-source", "read-translated-dest", "read-long-path", "drop-nat-filtered", "drop-queue-full", "drop-no-socket", "loopback", "route-several", "nat-allocates"],
+    rule="TODO", design_ref="DESIGN.md 7.1", technique="TODO", level_text="TODO", level_note="TODO", trusted=LEAN_TB, assumptions=[])
+
 ALL = SEQ
